@@ -13,16 +13,16 @@ import (
 )
 
 type stlLargeObs struct {
-	Ev       string `json:"ev"`
-	N        int    `json:"n"`
-	SaveErr  int    `json:"saveerr"`
-	Size     int64  `json:"size"`
-	Count    int    `json:"count"`    // header count field
-	Recs     int    `json:"recs"`     // records present in the file
-	RecBad   int    `json:"recbad"`   // 1-based index of the first record whose vertices are not the input (0 = none)
-	LoadErr  int    `json:"loaderr"`
-	Loaded   int    `json:"loaded"`   // triangles returned by LoadSTL
-	LoadBad  int    `json:"loadbad"`  // 1-based index of the first loaded triangle that differs from the input (0 = none)
+	Ev      string `json:"ev"`
+	N       int    `json:"n"`
+	SaveErr int    `json:"saveerr"`
+	Size    int64  `json:"size"`
+	Count   int    `json:"count"`  // header count field
+	Recs    int    `json:"recs"`   // records present in the file
+	RecBad  int    `json:"recbad"` // 1-based index of the first record whose vertices are not the input (0 = none)
+	LoadErr int    `json:"loaderr"`
+	Loaded  int    `json:"loaded"`  // triangles returned by LoadSTL
+	LoadBad int    `json:"loadbad"` // 1-based index of the first loaded triangle that differs from the input (0 = none)
 }
 
 func largeTri(i int) *sdf.Triangle3 {
